@@ -810,6 +810,11 @@ fn run_history<E: CoreApi + MgmtApi + RbacApi>(e: &mut E, steps: &str, cx: &mut 
                 out.push(r.to_string());
                 continue;
             }
+            if f[0] == "MK" {
+                // a marker for the predicates; no effect
+                out.push("1".to_string());
+                continue;
+            }
             if f[0] == "FRESH" {
                 fresh = build_fresh(cx);
                 out.push(if fresh.is_some() { "1".to_string() } else { "E".to_string() });
